@@ -307,6 +307,10 @@ func VHRevisit() {
 	S := w.vStatement("head", vParam("BUDGET", 1), bad)
 	back := &tree.Statement{JumpStatement: &tree.JumpStatement{Expression: vValExpr(variable.NewString("n0"))}}
 	w.nodes[0].Statements = []*tree.Statement{S, w.newLineStmt("L"), back}
+	if bad {
+		// a well-formed command follows (whatever a fault left behind must not reach it)
+		w.nodes[0].Statements = []*tree.Statement{S, w.newLineStmt("L"), vCommandStmt(variable.NewString("cmd"), variable.NewNumber(3), variable.NewString("arg")), back}
+	}
 	// the other nodes lead back to n0, too
 	for i := 1; i <= 2; i++ {
 		w.nodes[i].Statements = append(w.nodes[i].Statements, &tree.Statement{JumpStatement: &tree.JumpStatement{Expression: vValExpr(variable.NewString("n0"))}})
